@@ -600,7 +600,13 @@ func (g *c09sGen) site(ind int, f *c09sFunc, form int, mk func() string) {
 		}
 		g.feat["form:decl"]++
 		g.feat[fmt.Sprintf("form:results=%d", nres)]++
-		g.line(ind, "%s := %s", strings.Join(names, ", "), mk())
+		if g.r.chance(35) {
+			// the var form of the same declaration: `var a, b = f()` asks the call for len(names) results too
+			g.feat["form:var-decl"]++
+			g.line(ind, "var %s = %s", strings.Join(names, ", "), mk())
+		} else {
+			g.line(ind, "%s := %s", strings.Join(names, ", "), mk())
+		}
 		g.showVars(ind, "="+f.name, rv)
 		if form == c09sFormAssign {
 			g.feat["form:assign"]++
